@@ -127,7 +127,7 @@ func genC20(r *Rng) *Scenario {
 	sc := &Scenario{Cfg: baseCfg(r)}
 	cfg := &sc.Cfg
 	cfg.HoldAcks = false
-	fs := []string{"a/x", "a/+", "#", "+/x", "a/#", "b", "+"}
+	fs := []string{"a/x", "a/+", "#", "+/x", "a/#", "b", "+", "a/b/#", "+/+/#", "a/x/#", "a/+/y", "+/+", "a/x/y/#"}
 	n := int(r.between(1, 4))
 	for i := 0; i < n; i++ {
 		reg := MuxReg{Filter: fs[r.IntN(len(fs))], Async: r.chance(0.4)}
@@ -150,7 +150,7 @@ func genC20(r *Rng) *Scenario {
 	sc.Ops = append(sc.Ops, Op{AtUs: 1, Actor: 0, Kind: "connect"})
 	t := rtt(cfg) + 10
 	k := int(r.between(1, 6))
-	tps := []string{"a/x", "a", "b", "a/x/y", "c/x"}
+	tps := []string{"a/x", "a", "b", "a/x/y", "c/x", "a/b", "a/b/c", "x", "a/x/y/z"}
 	for i := 0; i < k; i++ {
 		if r.chance(0.6) {
 			t += r.between(0, 300)
